@@ -11,12 +11,13 @@ def run(ctx):
                          "configurations: both directions, minimum alignments 1/8/16) next to std::vec::Vec / VecDeque; boundary and out-of-range "
                          "arguments; capacity promises; distinct_nontrivial counts distinct op lines replayed on the model")
     ctx.partial += [
-        "refinement to List functions proved for: retain, dedup_by, truncate, clear, pop, pop_if, remove, swap_remove, push, insert, "
-        "extend_from_slice_clone, resize, resize_with, append, drain(+keep_rest), extract_if, into_iter, map_in_place, reservation policy "
-        "(fits => same buffer, promise kept, FixedBumpVec refuses exactly when full, BumpVec never refuses); MutBumpVecRev (mirrored): push, pop, "
-        "truncate, insert, remove, swap_remove, extend_from_slice_clone, append",
-        "std-differential oracle only (not modelled): splice, dedup_by_key, extend_from_within_clone, reserve_exact, shrink_to_fit, into_flattened, "
-        "BumpVec::map, MutBumpVecRev::{pop_if, resize_with, resize (proved for C06 only)}",
+        "refinement to List functions proved for: retain, dedup_by, dedup_by_key, truncate, clear, pop, pop_if, remove, swap_remove, push, insert, "
+        "extend_from_slice_clone, extend_from_within_clone, resize, resize_with, append, drain(+keep_rest), extract_if, into_iter, map_in_place, "
+        "BumpVec::splice, reservation policy (fits => same buffer, promise kept, FixedBumpVec refuses exactly when full, BumpVec never refuses, "
+        "reserve_exact, shrink_to_fit); MutBumpVecRev (mirrored): push, pop, pop_if, truncate, insert, remove, swap_remove, "
+        "extend_from_slice_clone, resize_with, append; history level: every finite sequence of the 18 single-vector operations refines the "
+        "list-level run (history_refines)",
+        "std-differential oracle only (not modelled): into_flattened, BumpVec::map, MutBumpVecRev::resize (proved for C06 only)",
         "capacity of MutBumpVec / MutBumpVecRev after growth is an observed input of the model (the arena decides); `cap >= promised` for them is an oracle check",
         "zero-sized element types (capacity usize::MAX, lengths) by oracle only",
     ]
